@@ -39,6 +39,7 @@ class Encoder:
         self.quotient_vars = DEFAULT_QV[0]
         self.inputs = inputs
         self.logatoms = []      # (atom expr, sample values, z3 var)
+        self.logatoms_all = []  # (atom expr, z3 var) for every distinct log atom
         self._samples = None
         self.qmemo = {}
         if group and roots:
@@ -225,6 +226,7 @@ class Encoder:
                     return r
                 if vec is not None:
                     self.logatoms.append((a, vec, l))
+                self.logatoms_all.append((a, l))
                 an, ad = self.real(a)
                 sg = _mulo(an, ad)
                 self.side.append((sg > 0, 'log argument > 0: ' + X.show(a, 3)))
@@ -256,6 +258,19 @@ class Encoder:
         self.memo[e.uid] = r
         self.keep.append(e)
         return r
+
+    def finalize(self):
+        """pairwise congruence / monotonicity facts between the abstraction variables of log atoms
+        (sound facts about the real log; recover relations such as log(T_ref) = log(T_mid) under T_ref = T_mid)"""
+        atoms = list(self.logatoms_all)
+        if len(atoms) > 14:
+            atoms = atoms[:14]
+        for i in range(len(atoms)):
+            for j in range(i + 1, len(atoms)):
+                (a1, l1), (a2, l2) = atoms[i], atoms[j]
+                lt = self.boolean(X.lt(a1, a2))
+                gt = self.boolean(X.lt(a2, a1))
+                self.cons += [z3.Implies(lt, l1 < l2), z3.Implies(gt, l1 > l2), z3.Implies(z3.And(z3.Not(lt), z3.Not(gt)), l1 == l2)]
 
     def _sample(self, a):
         import math, random
